@@ -26,15 +26,16 @@ from common import spec, cfgpath
 
 REQS = {'a': ('GET', '/item/alpha', 't=ta'), 'b': ('GET', '/item/beta', 't=tb'), 'c': ('GET', '/nb/gamma', 't=tg'),
         'boom1': ('GET', '/boom/x1', 't=t1'), 'boom2': ('GET', '/boom/x2', 't=t2'),
+        'm1': ('GET', '/multi', 't=tm1'), 'm2': ('GET', '/multi/', 't=tm2'),       # empty tails of a multi-segment binding
         'nf': ('GET', '/nowhere', 't=tn'), 'na': ('POST', '/item/zeta', 't=tz'), 'redir': ('GET', '/branch', 't=tr'),
         'redir2': ('GET', '/branch', 't=tr2&page=2'),       # the same path as redir, another query: another Location
         # two method-restricted routes on one path: a request neither admits (405), and one for each of them
         'dna': ('DELETE', '/dual/delta', 't=td'), 'dget': ('GET', '/dual/eps', 't=te'), 'dpost': ('POST', '/dual/phi', 't=tp'),
         # two 404s that negotiate different representations
         'nfh': ('GET', '/nowhere/h', 't=th', 'text/html'), 'nfj': ('GET', '/nowhere/j', 't=tj', 'application/json')}
-NAME_OWNER = {'alpha': 'a', 'beta': 'b', 'gamma': 'c', 'x1': 'boom1', 'x2': 'boom2', 'zeta': 'na', 'delta': 'dna', 'eps': 'dget',
+NAME_OWNER = {'multi-tm1': 'm1', 'multi-tm2': 'm2', 'alpha': 'a', 'beta': 'b', 'gamma': 'c', 'x1': 'boom1', 'x2': 'boom2', 'zeta': 'na', 'delta': 'dna', 'eps': 'dget',
               'phi': 'dpost'}
-TOKEN_OWNER = {'ta': 'a', 'tb': 'b', 'tg': 'c', 't1': 'boom1', 't2': 'boom2', 'tn': 'nf', 'tz': 'na', 'tr': 'redir', 'tr2': 'redir2', 'td': 'dna',
+TOKEN_OWNER = {'tm1': 'm1', 'tm2': 'm2', 'ta': 'a', 'tb': 'b', 'tg': 'c', 't1': 'boom1', 't2': 'boom2', 'tn': 'nf', 'tz': 'na', 'tr': 'redir', 'tr2': 'redir2', 'td': 'dna',
                'te': 'dget', 'tp': 'dpost', 'th': 'nfh', 'tj': 'nfj'}
 FIXED = ('nf', 'na', 'redir', 'redir2', 'dna', 'nfh', 'nfj')
 FAILS = ('boom1', 'boom2')
@@ -66,7 +67,7 @@ def build(W):
 
     def ep_item(request, name, token, t):
         W.log({'a': 'endpoint', 'params': ['params', NAME_OWNER.get(name, 'ALIEN')],
-               'token': ['token', TOKEN_OWNER.get(token, 'ALIEN')], 'rid': getattr(request, 'request_id', -1)})
+               'token': ['token', TOKEN_OWNER.get(token, 'ALIEN')], 'rid': getattr(request, 'request_id', -1), 'guid': getattr(request, 'request_guid', None)})
         return {'name': name, 'token': token, 'path': request.path, 't': t}      # t: from the built-in GetParamMiddleware
 
     def render_item(context, request, token):
@@ -74,8 +75,16 @@ def build(W):
 
     def ep_boom(request, name, token, t):
         W.log({'a': 'endpoint', 'params': ['params', NAME_OWNER.get(name, 'ALIEN')],
-               'token': ['token', TOKEN_OWNER.get(token, 'ALIEN')], 'rid': getattr(request, 'request_id', -1)})
+               'token': ['token', TOKEN_OWNER.get(token, 'ALIEN')], 'rid': getattr(request, 'request_id', -1), 'guid': getattr(request, 'request_guid', None)})
         raise ValueError('boom-%s-%s-%s' % (name, token, t))
+
+    def ep_multi(request, token, t, tail):
+        # the list a multi-segment binding hands over belongs to THIS request: editing it must not show anywhere else
+        tail.append(token)
+        W.log({'a': 'endpoint', 'params': ['params', NAME_OWNER.get('multi-' + '-'.join(tail), 'ALIEN')],
+               'token': ['token', TOKEN_OWNER.get(token, 'ALIEN')], 'rid': getattr(request, 'request_id', -1),
+               'guid': getattr(request, 'request_guid', None)})
+        return {'name': 'multi-' + '-'.join(tail), 'token': token, 'path': request.path, 't': t}
 
     def ep_nb1(name):
         raise NotFound('soft %s' % name, is_breaking=False)
@@ -83,12 +92,13 @@ def build(W):
 
     def ep_dual_post(request, name, token, t):
         W.log({'a': 'endpoint', 'params': ['params', NAME_OWNER.get(name, 'ALIEN')],
-               'token': ['token', TOKEN_OWNER.get(token, 'ALIEN')], 'rid': getattr(request, 'request_id', -1)})
+               'token': ['token', TOKEN_OWNER.get(token, 'ALIEN')], 'rid': getattr(request, 'request_id', -1), 'guid': getattr(request, 'request_guid', None)})
         return {'name': name, 'token': token, 'path': request.path, 't': t, 'via': 'post-route'}
     routes = [GET('/item/<name>', ep_item, render_item),
               GET('/dual/<name>', ep_item, render_item),
               POST('/dual/<name>', ep_dual_post, render_item),
               ('/boom/<name>', ep_boom),
+              ('/multi/<tail*>', ep_multi, render_item),
               ('/nb/<name>', ep_nb1),
               ('/nb/<name>', ep_item, render_item),
               ('/branch/', lambda: Response('branch'))]
@@ -160,6 +170,15 @@ def run_schedule(app, W, rnames, plan, first, baseline, repo):
 
 def normalise(rnames, ev):
     out = []
+    # request_guid is derived from request_id and has to be unique as well: two requests that share a guid are recorded with
+    # the same identifier, which the trace specification (UniqueIds) rejects
+    seen_guid = {}
+    for e in ev:
+        g = e.get('guid')
+        if g is not None:
+            if g in seen_guid and seen_guid[g] != e.get('rid'):
+                e = dict(e, rid=seen_guid[g])
+            seen_guid.setdefault(g, e.get('rid'))
     for e in ev:
         out.append({'p': e['p'], 'a': e['a'], 'params': e.get('params', ['-', '-']), 'token': e.get('token', ['-', '-']),
                     'rid': e.get('rid', -1), 'resp': e.get('resp', ['-'])})
@@ -204,7 +223,8 @@ def check(run):
     pairs = [(x, y) for x in names for y in names]
     if quick:
         must = [('nfh', 'nfj'), ('nfj', 'nfh'), ('dna', 'dpost'), ('dpost', 'dna'), ('a', 'b'), ('boom1', 'a'), ('c', 'redir'),
-                ('boom1', 'boom2'), ('boom2', 'boom1'), ('redir', 'redir2'), ('redir2', 'redir'), ('c', 'nf'), ('nf', 'c')]
+                ('boom1', 'boom2'), ('boom2', 'boom1'), ('redir', 'redir2'), ('redir2', 'redir'), ('c', 'nf'), ('nf', 'c'),
+                ('m1', 'm2'), ('m2', 'm1'), ('m1', 'm1')]
         pairs = must + rng.sample([p_ for p_ in pairs if p_ not in must], 8)
     npre = 0
     for x, y in pairs:
